@@ -10,6 +10,7 @@ import Oracle.C10
 import Oracle.C08
 import Oracle.C09
 import Oracle.C20
+import Oracle.C12
 /-!
 Line-protocol driver.  stdin: one JSON object per line with a field "op" = "<component>.<operation>";
 stdout: one JSON line per input: the model's answer, or {"oracle_error": "..."}.
@@ -30,6 +31,7 @@ def dispatch (j : Json) : R Json := do
   else if op.startsWith "c08." then C08.handle op j
   else if op.startsWith "c09." then C09.handle op j
   else if op.startsWith "c20." then C20.handle op j
+  else if op.startsWith "c12." then C12.handle op j
   else throw s!"unknown component in op {op}"
 
 partial def loop (h : IO.FS.Stream) (out : IO.FS.Stream) : IO Unit := do
